@@ -150,6 +150,23 @@ func runDebug(cmd, repo string, args []string) {
 				fmt.Println(c.Skel)
 			}
 		}
+	case "cross":
+		// args: [multi]
+		multi := len(args) > 0 && args[0] == "multi"
+		r := exploreCrossOne(prog, senFrontEnds[0], senFrontEnds[1], multi)
+		fmt.Printf("err=%v states=%d transitions=%d rounds=%d modes=%d classes=%d in %.2fs\n", r.err, r.stats.States, r.stats.Transitions, r.stats.Rounds, len(r.stats.Modes), r.classes, time.Since(t0).Seconds())
+		var keys []string
+		for k := range r.dis {
+			keys = append(keys, k)
+		}
+		sort.Strings(keys)
+		for _, k := range keys {
+			d := r.dis[k]
+			fmt.Printf("DIS %s\n    %s\n    witness=%q p=[%s] t=[%s]\n", k, d.Detail, d.Witness, d.XState, d.YState)
+		}
+		for _, u := range r.undec {
+			fmt.Println("UNDECIDED", u)
+		}
 	case "machine":
 		// args: rel type root [multi]
 		m, err := ExtractMachine(prog, args[0], args[1], []string{args[2]})
